@@ -12,7 +12,7 @@ CASE_TIMEOUT = "60s"
 HARNESS_ENV = {"COCA_BIN": os.path.join(vlib.ROOT, "harness", "bin", "coca")}
 RULE = ("(a) histories materialised with real git (authors with spaces/digits/unicode, subjects with brackets, "
         "hex words, colons, arrows, dates and the author's name, paths with spaces and nesting, adds, edits, "
-        "deletes, renames in/across directories and to the root, binaries, merges, empty commits), logged with "
+        "deletes, renames in/across directories and to the root, binaries, mode changes (chmod +x), merges, empty commits), logged with "
         "the argument vector extracted from cmd/git.go, parsed by `coca git` (commits.json) and by "
         "git.BuildMessageByInput, expectations from git plumbing; (b) synthetic logs in the same layout over an "
         "adversarial alphabet; non-trivial = at least 2 commits or a rename/delete/binary; distinct = distinct input")
@@ -35,6 +35,7 @@ NAMES = ["a.txt", "b.go", "Main.java", "read me.md", "c.py", "2020 01 notes.txt"
 def gen_script(rng):
     steps = []
     live = {}
+    execs = set()
     day = [0]
     counter = [0]
     def date():
@@ -77,6 +78,12 @@ def gen_script(rng):
                 if p in touched: continue
                 touched.add(p); del live[p]
                 ops.append(["rm", p])
+            elif r < 0.86:
+                # the executable bit set on a tracked file (a script): ` mode change 100644 => 100755 p` in the summary block
+                p = rng.choice(list(live))
+                if p in touched or p in execs: continue
+                touched.add(p); execs.add(p)
+                ops.append(["chmod", p])
             else:
                 p = rng.choice(list(live))
                 if p in touched or live[p] is None: continue
@@ -156,10 +163,13 @@ def render_synthetic(rng):
             r = rng.random()
             if r < 0.6:
                 a, d = rng.randint(0, 99), rng.randint(0, 99)
-                mode = rng.choice(["", "", "create"])
+                mode = rng.choice(["", "", "create"]) if r < 0.55 else ""
                 nums.append("%d\t%d\t%s" % (a, d, p))
                 if mode: sums.append(" create mode 100644 %s" % p)
                 chs.append([str(a), str(d), p, mode])
+            elif r < 0.66:
+                nums.append("0\t0\t%s" % p); sums.append(" mode change 100644 => 100755 %s" % p)
+                chs.append(["0", "0", p, ""])
             elif r < 0.75:
                 nums.append("-\t-\t%s" % p); sums.append(" create mode 100644 %s" % p)
                 chs.append(["0", "0", p, "create"])
